@@ -72,7 +72,16 @@ type Tree struct {
 	Val         float32 `json:"val"`
 }
 
+// PP recurses through two pointer levels, directly and inside containers.
+type PP struct {
+	V    uint8           `json:"v"`
+	Next **PP            `json:"next,omitempty"`
+	List []**PP          `json:"list"`
+	M    map[string]**PP `json:"m,omitempty"`
+}
+
 var named = map[string]reflect.Type{
+	"PP":   reflect.TypeOf(PP{}),
 	"EmbA": reflect.TypeOf(EmbA{}), "EmbB": reflect.TypeOf(EmbB{}), "Node": reflect.TypeOf(Node{}), "MutA": reflect.TypeOf(MutA{}), "MutB": reflect.TypeOf(MutB{}), "Tree": reflect.TypeOf(Tree{}),
 }
 
@@ -284,7 +293,7 @@ func (g *gctx) typ(depth int, inContainer bool) *TD {
 		}
 		return &TD{K: k}
 	case 4:
-		n := rapid.SampledFrom([]string{"Node", "MutA", "Tree", "EmbA"}).Draw(g.t, "named")
+		n := rapid.SampledFrom([]string{"Node", "MutA", "Tree", "EmbA", "PP"}).Draw(g.t, "named")
 		if n != "EmbA" {
 			g.feats["recursive"] = true
 		}
